@@ -8,7 +8,7 @@ Definition reviewed_map_sites : list reviewed_site := [
   {| rs_file := "importShadow_checker.go"; rs_fn := "importShadowChecker.VisitLocalDef"; rs_expr := "c.ctx.PkgObjects"; rs_flags := (true, false, false, false);
      rs_verdict := "deterministic"; rs_why := "at most one entry can match: the local names of the imports of one file are distinct (C02_import_shadow_det)" |};
   {| rs_file := "ruleguard_checker.go"; rs_fn := "newErrorHandler"; rs_expr := "failOnErrorPredicates"; rs_flags := (false, true, false, false);
-     rs_verdict := "not-a-diagnostic"; rs_why := "only on an invalid failOn value: the keys are listed in map order inside the returned init error text; no diagnostics are produced on that path" |};
+     rs_verdict := "not-a-diagnostic"; rs_why := "only on an invalid failOn value: the keys are appended in map order and joined into the returned init error text; no diagnostics are produced on that path. Unchanged tree: the text varies between runs (open finding C02/ruleguard/init-error-text-order, exhibited by the oracle); once the slice is sorted before the Join the loop is order-insensitive. The syntactic flags of this site (append inside the loop) are the same before and after that repair, so this entry covers both" |};
   {| rs_file := "ruleguard_checker.go"; rs_fn := "parseErrorHandler.failOnParseError"; rs_expr := "e.failureConditions"; rs_flags := (false, false, true, false);
      rs_verdict := "deterministic"; rs_why := "boolean OR over the predicates; the early return only short-cuts it (C02_fail_on_det)" |};
   {| rs_file := "analyzer.go"; rs_fn := "init"; rs_expr := "info.Params"; rs_flags := (true, false, false, false);
